@@ -1169,6 +1169,18 @@ pub fn gen_world(rng: &mut Rng, cfg: &GenCfg) -> (FcWorld, GenInfo) {
         count(&mut info, "js_with_declaration_file");
       }
     }
+    // a name that reaches its importer through TWO `export *` hops (sa -> sb -> sc), requested by name,
+    // while the module in the middle is public in its own right through another named import
+    if rng.chance(25) {
+      let base = info.pkgs[p].base.clone();
+      js_extra.push((format!("{}sc{}.ts", base, p), format!("export interface Leaf{} {{ x: number }}\nexport interface Other{} {{ y: string }}\n", p, p)));
+      js_extra.push((format!("{}sb{}.ts", base, p), format!("export * from \"./sc{}.ts\";\nexport interface Mid{} {{ z: number }}\n", p, p)));
+      js_extra.push((format!("{}sa{}.ts", base, p), format!("export * from \"./sb{}.ts\";\nexport interface Top{} {{ w: boolean }}\n", p, p)));
+      let type_only = if rng.chance(50) { "type " } else { "" };
+      mods[p][0].header.push_str(&format!("import {}{{ Leaf{} }} from \"./sa{}.ts\";\nimport {}{{ Mid{} }} from \"./sb{}.ts\";\n", type_only, p, p, type_only, p, p));
+      mods[p][0].footer.push_str(&format!("export function useLeaf{}(a: Leaf{}, b: Mid{}): void {{}}\n", p, p, p));
+      count(&mut info, "named_import_through_two_star_hops");
+    }
   }
   // bodies
   for p in 0..mods.len() {
